@@ -16,7 +16,7 @@ REQUIRED_THEOREMS = ['nearest', 'nearest_desc', 'bounds_cell', 'bounds_cell_desc
                      'model_nearest', 'model_bounds']
 RULE = ('strictly monotonic coordinates, ascending and descending, 2..7 cells, three bounds representations '
         '(none, 1-D edges, n x 2), methods nearest/bounds/exact, clean mask/none, bounds ignore/warn/error, '
-        'left/right None/nan/value; stream "pow2": power-of-two spacings (np.interp exact) with queries at '
+        'left/right None/nan/value; queries include values 2^-30 beside every node/edge; stream "pow2": power-of-two spacings (np.interp exact) with queries at '
         'centres, edges, exact midpoints (ties), interior and outside; stream "margin": arbitrary dyadic '
         'spacings with queries at nodes/edges exactly or at least 1/16 cell away from every decision boundary; '
         'non-trivial = at least one query strictly inside the domain and not on a node')
@@ -82,8 +82,11 @@ def _case(rng):
         k = rng.random()
         i = rng.randrange(len(g) - 1)
         w = g[i + 1] - g[i]
-        if k < 0.25:
+        if k < 0.15:
             vals.append(rng.choice(g))
+        elif k < 0.25:
+            # just inside / just outside a node or edge (well within any float tolerance of it)
+            vals.append(rng.choice(g + c) + rng.choice([1, -1, 3, -3]) * Fraction(1, 2 ** rng.choice([30, 24, 36])))
         elif k < 0.35:
             vals.append(rng.choice(c))
         elif k < 0.5 and stream == 'pow2':
